@@ -53,6 +53,8 @@ def _filter_log(text):
     out = []
     skip = False
     for line in text.splitlines():
+        if len(line) > 3000:
+            line = line[:300] + " ...[long line cut]"
         if line.startswith("warning:") or line.startswith("warning["):
             skip = True
             continue
